@@ -34,20 +34,15 @@ def _job(args):
         if status != "ok":
             return []
 
-        def handler(*a):
-            raise _Timeout()
-
-        signal.signal(signal.SIGALRM, handler)
         for kind, fn in zip(kinds, mod.definitions):
-            signal.alarm(budget)
+            # the time budget is polled between solver calls (each bounded by its own timeout): no signal is delivered
+            # into z3's callbacks
             try:
                 r = W.verify_kernel(member, fn, kind, budget - 5)
-            except _Timeout:
-                r = dict(checks=0, proved=0, open=["(time budget exhausted)"], refuted=[], loops=0, seconds=budget, unsupported="timeout")
+                if r.get("unsupported") == "time budget exhausted":
+                    r = dict(checks=0, proved=0, open=["(time budget exhausted)"], refuted=[], loops=0, seconds=budget, unsupported="timeout")
             except Exception as e:
                 r = dict(checks=0, proved=0, open=[], refuted=[], loops=0, seconds=0, unsupported="exception " + repr(e)[:120])
-            finally:
-                signal.alarm(0)
             out.append((member.key, str(kind), r))
     finally:
         A.default_array_size = saved
